@@ -14,9 +14,10 @@ PosSeq == <<"single", "override-top", "override-base", "extended-base", "extendi
 Positions == ToSet(PosSeq)
 \* the option set a kind case is loaded with: one of these per case, rotating with path, kind, position and the seed, so that
 \* every (path, kind) meets several of them across positions and every case meets all of them across seeds
-KindOpts == <<{}, {"SkipInterpolation"}, {}, {"SkipNormalization"}, {"NoResolvePaths"}, {}, {"SkipConsistencyCheck"}, {"SkipInterpolation", "SkipNormalization"}, {"SkipDefaultValues"}, {"SkipResolveEnvironment"}, {"SkipInterpolation", "SkipConsistencyCheck"}>>
+KindOpts == <<{}, {"SkipInterpolation"}, {}, {"SkipNormalization"}, {"NoResolvePaths"}, {}, {"SkipConsistencyCheck"}, {"SkipInterpolation", "SkipNormalization"}, {"SkipDefaultValues"}, {"SkipResolveEnvironment"}, {"SkipInterpolation", "SkipConsistencyCheck"},
+              {"SkipValidation"}, {"SkipValidation", "SkipNormalization"}>>   \* without schema validation nothing has to be rejected, but nothing may crash either
 Rot == IF "ROT" \in DOMAIN IOEnv THEN IOEnv.ROT ELSE "0"
-RotN == CHOOSE r \in 0..20 : ToString(r) = Rot
+RotN == CHOOSE r \in 0..30 : ToString(r) = Rot
 Index(seq, x) == CHOOSE i \in 1..Len(seq) : seq[i] = x
 OptsOf(i, k, pos) == KindOpts[((i + 3 * Index(KindSeq, k) + 5 * Index(PosSeq, pos) + RotN) % Len(KindOpts)) + 1]
 SchemaKind(k) == CASE k \in {"empty-list", "list-of-strings", "list-of-maps", "nested-list", "odd-strings", "repeated-strings", "repeated-maps", "list-of-ints"} -> "array"
@@ -29,7 +30,7 @@ VARIABLE cs
 TInit == /\ absent = {} /\ opts = {} /\ pc = 1 /\ outcome = "none" /\ names = ""     \* the pipeline variables are not used here
          /\ \/ \E i \in 1..Len(Paths) : \E k \in Kinds : \E pos \in Positions :
               cs = [family |-> "kind", path |-> i, kind |-> k, position |-> pos, opts |-> OptsOf(i, k, pos),
-                    expect |-> IF Admits(Paths[i], k) THEN "either" ELSE "error"]
+                    expect |-> IF Admits(Paths[i], k) \/ "SkipValidation" \in OptsOf(i, k, pos) THEN "either" ELSE "error"]
             \/ \E a \in SUBSET Refs : \E o \in SUBSET Switches :
                  cs = [family |-> "fault", absent |-> a, opts |-> o, expect |-> IF MustFail(a, o) THEN "error" ELSE "either"]
 TNext == UNCHANGED <<cs, vars>>
